@@ -11,6 +11,7 @@ CONSTANTS
   HdrCells = 2
   DevSplitWrite = FALSE
   DevShortRead = FALSE
+  DevLoseFinal = FALSE
 SYMMETRY Sym2
 INVARIANTS InOrderDelivery PartialIsOwnPrefix ReaderInSync AllDeliveredAtEnd
-CHECK_DEADLOCK FALSE
+CHECK_DEADLOCK TRUE
